@@ -554,6 +554,15 @@ func runC08(c *fw.Ctx, idx int) fw.Result {
 	}
 	in := gen.MakeUpdown(r, gen.UpdownProfile{MaxQueries: 5, MaxTargets: 30, PAmbTract: 0.35, MultiHit: true})
 	o, mode := randomUDOpts(r, in)
+	if !o.Table && len(in.Queries) >= 2 && r.Chance(0.2) {
+		// two query records with one ID and different sequences (a re-sequenced sample): each is a
+		// query of its own with its own row, in file order (the list form is read by position)
+		k, j := r.Intn(len(in.Queries)), r.Intn(len(in.Queries))
+		if k != j {
+			in.Queries[j].ID, in.Queries[j].Desc = in.Queries[k].ID, in.Queries[k].Desc
+			res.Count("cases_with_repeated_query_id", 1)
+		}
+	}
 	if idx%6 == 4 {
 		// a pair exactly on the --threshold-pair boundary: a query with n SNPs and targets that are
 		// ambiguous at k-1, k and k+1 of those sites (proportion k/n of the consequential sites),
